@@ -24,21 +24,37 @@ more), `len = limit.0 - next.0`; a fault (panic, out-of-bounds) anywhere makes t
 `oneRun … = ok …` also says that no call of the history faults.  `IterProofs.pairs P` is the list of
 `(rank, position)` pairs (`reference_pairs`).
 
-PARTIAL.  The sparse-vector iterators are proven over the alphabet `next` / `next_back` only (theorems named
-`…_partial`): `nth` / `nth_back` of those iterators are the standard defaults (repeated `next` / `next_back`) and
-are not modelled as separate calls, their `len` is not in the alphabet, and the sparse `ZeroIter` is proven for
-a forward run to exhaustion only.  The run-length vector's iterators and the wavelet matrix's `ValueIter` /
-item iterators are not treated in this file: they are covered in their own property files resp. by the
-correspondence tests only.
+Default `nth` / `nth_back` / `len`.  The sparse vector's, the run-length vector's and the wavelet matrix's
+iterators do not override `nth` / `nth_back`: a call is the standard library's default, `Iter2.nthDefault` (`k`
+times `next` resp. `next_back`, giving up with `None` at the first `None`, then one more).  `len()` is
+`ExactSizeIterator::len` = `size_hint().0`; the `size_hint` bodies are transcribed in Proofs/Iter2.lean (`Sp.oneLen`,
+`Sp.bitLen`, `Sp.zeroLen`, `RLI.oneLen`, `RLI.bitLen`, `RLI.zeroLen`, `WMI.intoLen`: one `usize` subtraction each,
+through `subM m`, so that a `len()` that would underflow is a fault of the run) and proven equal to the model's
+`remaining` on every reachable state (`…_len_is_remaining`).  The run machines are `Iter2.genRun` (two-ended:
+full alphabet `ICall`), `Iter2.fwdRun` (forward-only exact-size iterators: `FCall` = `next` / `nth k` / `len`) and
+`Iter2.nRun` (forward-only iterators that are not `ExactSizeIterator`: `NCall` = `next` / `nth k`); the forward
+alphabets are embedded in `ICall` by `toICall`, so the reference is the same `dequeRunM`.  Forward-only in the
+Rust: sparse `ZeroIter`; run-length `RunIter` (no `len`), `Iter`, `OneIter`, `ZeroIter`; wavelet-matrix
+`ValueIter` (no `len`) and `IntoIter`.
+
+Modelled here, not run by the correspondence driver: the `size_hint` transcriptions just named, `nthDefault`,
+`WMI.intoNext` (`IntoIter::next` of the wavelet matrix) and `Iter2.cursorStepM` (`AccessIter` with a `get` that can
+fault, for `WaveletMatrix::iter`), `Iter2.intoStep` / `intoStepLen` (`IntVector`'s `IntoIter`).
+
+NOT covered in this file: the run-length vector's `predecessor` / `successor` iterators beyond their first item
+(C03 gives the first item; that they continue with consecutive ranks is not proven) and the sparse `ZeroIter` on
+multisets (the Rust documents it as incorrect there).
 -/
 import Sds.Proofs.Iter
 import Sds.Proofs.IntVec
 import Sds.Proofs.Sparse
 import Sds.Proofs.Sparse2
 import Sds.Proofs.Glue
+import Sds.Proofs.Glue2
+import Sds.Proofs.Iter2
 
 namespace Sds.C10
-open Sds Outcome IterProofs
+open Sds Outcome IterProofs Iter2
 
 /-! ### two-cursor iterators: `AccessIter`, `bit_vector::Iter`, `IntoIter` -/
 
@@ -88,6 +104,18 @@ theorem into_iter_step {α} (xs : List α) (get : Nat → α) (hx : ∀ i, i < x
       (dequeStep (xs.drop i) .next).2 = xs.drop (intoIterStep get xs.length i).2 ∧
       (intoIterStep get xs.length i).2 ≤ xs.length :=
   intoIterStep_sim xs get hx i hi
+
+/-- owning `IntoIter` of an integer vector (forward-only, exact size; `Iter2.intoStep` = `intoIterStep` as a step
+function, default `nth`, `len` = `size_hint().0`): every call history over `next` / `nth k` / `len` yields the items -/
+theorem intvec_into_iter_any_history (v : IntVec) (m : Mode) (calls : List FCall) :
+    fwdRun (intoStep (fun i => (v.getRaw i).toNat) v.len) (intoStepLen m v.len) 0 calls =
+      ok (dequeRunM v.items (calls.map FCall.toICall)) := by
+  have := intoStep_run v.items (fun i => (v.getRaw i).toNat)
+    (fun i hi => by
+      rw [IntVec.items_length] at hi
+      rw [IntVec.items_getElem?, if_pos hi]) m calls
+  rw [IntVec.items_length] at this
+  exact this
 
 /-! ### `OneIter<T>`: set bits and unset bits of a plain bitvector -/
 
@@ -268,24 +296,23 @@ theorem successor_continues (b : BitVector) (v : RawVec) (rs : RankSup) (s : Sel
     show ok (dequeRunM (seg (pairs (onesPos (bitsT .ident v.bits))) k (onesPos (bitsT .ident v.bits)).length) calls) = _
     rw [hfull]
 
-/-! ### sparse (Elias–Fano) vector iterators — alphabet `next` / `next_back`
+/-! ### sparse (Elias–Fano) vector iterators — full alphabet
 
-Full intended statement: as for `OneIter<T>` above, over the alphabet `next`, `next_back`, `nth k`, `nth_back k`,
-`len`.  Proven: every interleaving of `next` / `next_back` (`Sparse2.End`), for every vector `s` that encodes
-the sorted list `P` in universe `n` with low width `w` (`Sparse.Encodes`; `sparse_built_iterators_partial` shows
-that is what the builder produces, sets and multisets).  Missing: `nth` / `nth_back` / `len` as calls, and for
-`ZeroIter` anything but a forward run to exhaustion. -/
+For every vector `s` that encodes the sorted list `P` in universe `n` with low width `w` (`Sparse.Encodes`;
+`sparse_built_iterators` shows that is what the builder produces, sets and multisets). -/
 
-/-- sparse `OneIter` (`iter` over the values with ranks), two-ended: answers of the reference queue over the
-pairs `(i, P[i])`, no fault, both modes -/
-theorem sparse_one_iter_any_interleaving_partial (s : Sparse) (n w : Nat) (P : List Nat)
-    (hs : s.Encodes n w P) (m : Mode) (calls : List Sparse2.End) :
-    ∃ it', Sparse2.runCalls m s calls (SpOneIter.full s) =
-      ok ((Sparse2.runDeque calls ((List.range P.length).map fun i => (i, P[i]?.getD 0))).1, it') := by
-  obtain ⟨it', _, _, h, _⟩ := Sparse2.runCalls_full hs m calls
-  refine ⟨it', ?_⟩
-  rw [h]
-  simp [itemsFrom]
+/-- sparse `OneIter` (`one_iter()`, the values with ranks), two-ended, EVERY call history over `next`, `next_back`,
+`nth k`, `nth_back k`, `len`: the answers of the reference queue over the pairs `(i, P[i])`, no fault, both modes -/
+theorem sparse_one_iter_any_interleaving (s : Sparse) (n w : Nat) (P : List Nat)
+    (hs : s.Encodes n w P) (m : Mode) (calls : List ICall) :
+    Sp.oneRun m s (SpOneIter.full s) calls = ok (dequeRunM (pairs P) calls) :=
+  Sp.oneRun_full hs m calls
+
+/-- the same from ANY intermediate state standing for the ranks `[r, R)` (`Sparse2.IterBetween`) -/
+theorem sparse_one_iter_from_any_state (s : Sparse) (n w : Nat) (P : List Nat) (hs : s.Encodes n w P) (m : Mode)
+    (it : SpOneIter) (r R : Nat) (hit : Sparse2.IterBetween s w P r R it) (calls : List ICall) :
+    Sp.oneRun m s it calls = ok (dequeRunM (((pairs P).take R).drop r) calls) :=
+  Sp.oneRun_between hs m calls hit
 
 /-- the reference queue partitions its content: the answers from the front, what is left, and the reversed
 answers from the back make up the original sequence — no item twice, none skipped -/
@@ -294,28 +321,75 @@ theorem two_ended_partition {α} (calls : List Sparse2.End) (D : List α) :
       (Sparse2.answersOf .back calls (Sparse2.runDeque calls D).1).reverse = D :=
   Sparse2.runDeque_partition calls D
 
-/-- sparse `Iter` (all bits, sets AND multisets), two-ended: answers of the reference queue over the bit
-sequence of the set -/
-theorem sparse_iter_any_interleaving_partial (s : Sparse) (n w : Nat) (P : List Nat) (hs : s.Encodes n w P)
-    (m : Mode) (calls : List Sparse2.End) :
-    ∃ it it', s.iter m = ok it ∧
-      Sparse2.runSpCalls m s calls it = ok ((Sparse2.runDeque calls (bitsOfSet P n)).1, it') :=
-  Sparse2.iter_runSpCalls hs m calls
+/-- sparse `Iter` (`iter()`, all bits, sets AND multisets), two-ended, every call history over the full alphabet:
+the answers of the reference queue over the bit sequence of the set -/
+theorem sparse_iter_any_interleaving (s : Sparse) (n w : Nat) (P : List Nat) (hs : s.Encodes n w P)
+    (m : Mode) (calls : List ICall) :
+    ∃ it, s.iter m = ok it ∧ Sp.bitRun m s it calls = ok (dequeRunM (bitsOfSet P n) calls) :=
+  Sp.bitRun_full hs m calls
 
-/-- sparse `ZeroIter` (set mode), run forward to exhaustion: exactly the `(rank, position)` pairs of the
-`n - |P|` unset positions -/
-theorem sparse_zero_iter_partial (s : Sparse) (n w : Nat) (P : List Nat) (hs : s.Encodes n w P)
-    (hstrict : sortedStrict P = true) (m : Mode) :
+/-- sparse `ZeroIter` (`zero_iter()`, set mode; forward-only in the Rust), every call history over `next`,
+`nth k`, `len`: the `(rank, position)` pairs of the `n - |P|` unset positions -/
+theorem sparse_zero_iter_any_history (s : Sparse) (n w : Nat) (P : List Nat) (hs : s.Encodes n w P)
+    (hstrict : sortedStrict P = true) (m : Mode) (calls : List FCall) :
     ∃ z, s.zeroIter m = ok z ∧
-      Sparse2.drainZ m s (n - P.length + 1) z =
-        ok ((List.range (n - P.length)).map fun i => (i, (selectZeroSet P n i).getD 0)) := by
-  obtain ⟨z, h1, h2⟩ := Sparse2.zeroIter_drain hs hstrict m
-  refine ⟨z, h1, ?_⟩
-  rw [h2]
-  simp [Sparse2.zerosFrom]
+      Sp.zeroRun m s z calls = ok (dequeRunM
+        ((List.range (n - P.length)).map fun i => (i, (selectZeroSet P n i).getD 0)) (calls.map FCall.toICall)) :=
+  Sp.zeroRun_full hs hstrict m calls
+
+/-- **sparse `select_iter(r)`** for EVERY `r`: continues with the ranks `r, r+1, …` to the end -/
+theorem sparse_select_iter_continues (s : Sparse) (n w : Nat) (P : List Nat) (hs : s.Encodes n w P) (m : Mode)
+    (r : Nat) (calls : List ICall) :
+    ∃ it, s.selectIter m r = ok it ∧ Sp.oneRun m s it calls = ok (dequeRunM ((pairs P).drop r) calls) :=
+  ⟨_, selectIter_ok hs m r, Sp.oneRun_iterAt hs m calls r⟩
+
+/-- **sparse `predecessor(x)`** for EVERY `x`: starts at the predecessor (rank `k`) and continues to the end; empty
+when there is none -/
+theorem sparse_predecessor_continues (s : Sparse) (n w : Nat) (P : List Nat) (hs : s.Encodes n w P) (m : Mode)
+    (x : Nat) (calls : List ICall) :
+    ∃ it, s.predecessor m x = ok it ∧
+      Sp.oneRun m s it calls = ok (dequeRunM
+        (match predSet P x with
+         | none => []
+         | some (k, _) => (pairs P).drop k) calls) := by
+  refine ⟨_, pred_ok hs m x, ?_⟩
+  cases predSet P x with
+  | none => exact Sp.oneRun_empty hs m calls
+  | some kv => exact Sp.oneRun_iterAt hs m calls kv.1
+
+/-- **sparse `successor(x)`** for EVERY `x` -/
+theorem sparse_successor_continues (s : Sparse) (n w : Nat) (P : List Nat) (hs : s.Encodes n w P) (m : Mode)
+    (x : Nat) (calls : List ICall) :
+    ∃ it, s.successor m x = ok it ∧
+      Sp.oneRun m s it calls = ok (dequeRunM
+        (match succSet P x with
+         | none => []
+         | some (k, _) => (pairs P).drop k) calls) := by
+  refine ⟨_, succ_ok hs m x, ?_⟩
+  cases succSet P x with
+  | none => exact Sp.oneRun_empty hs m calls
+  | some kv => exact Sp.oneRun_iterAt hs m calls kv.1
+
+/-- **sparse `select_zero_iter(r)`** (set mode) for EVERY `r`: continues with the zeros of rank `r, r+1, …` -/
+theorem sparse_select_zero_iter_continues (s : Sparse) (n w : Nat) (P : List Nat) (hs : s.Encodes n w P)
+    (hstrict : sortedStrict P = true) (m : Mode) (r : Nat) (calls : List FCall) :
+    ∃ z, s.selectZeroIter m r = ok z ∧
+      Sp.zeroRun m s z calls = ok (dequeRunM
+        (((List.range (n - P.length)).map fun i => (i, (selectZeroSet P n i).getD 0)).drop r)
+        (calls.map FCall.toICall)) :=
+  Sp.zeroRun_select hs hstrict m r calls
+
+/-- the transcribed `len()` (`size_hint().0`) of the three sparse iterators is the model's `remaining` on every
+state the simulations pass through -/
+theorem sparse_len_is_remaining (s : Sparse) (n w : Nat) (P : List Nat) (m : Mode) :
+    (∀ it d, Sp.OneRel s w P it d → Sp.oneLen m it = ok it.remaining) ∧
+    (∀ it d, Sp.BitRel s w P n it d → Sp.bitLen m it = ok it.remaining) ∧
+    (∀ z d, Sp.ZeroRel s w P n z d → Sp.zeroLen m z = ok z.remaining) :=
+  ⟨fun _ _ h => Sp.oneLen_eq_remaining m h, fun _ _ h => Sp.bitLen_eq_remaining m h,
+    fun _ _ h => Sp.zeroLen_eq_remaining m h⟩
 
 /-- sparse `OneIter` run forward to exhaustion: all values with their ranks, in order -/
-theorem sparse_one_iter_drain_partial (s : Sparse) (n w : Nat) (P : List Nat) (hs : s.Encodes n w P)
+theorem sparse_one_iter_drain (s : Sparse) (n w : Nat) (P : List Nat) (hs : s.Encodes n w P)
     (m : Mode) :
     drain m s (P.length + 1) (SpOneIter.full s) = ok ((List.range P.length).map fun i => (i, P[i]?.getD 0)) := by
   rw [Sds.drain_full hs m]
@@ -323,23 +397,147 @@ theorem sparse_one_iter_drain_partial (s : Sparse) (n w : Nat) (P : List Nat) (h
 
 /-- the hypotheses are what construction gives: for every strictly increasing (`multi = false`) resp.
 non-decreasing (`multi = true`) list below the universe size, the built vector's iterators behave as above -/
-theorem sparse_built_iterators_partial (w n : Nat) (multi : Bool) (P : List Nat) (hw1 : 1 ≤ w) (hw : w ≤ 63)
+theorem sparse_built_iterators (w n : Nat) (multi : Bool) (P : List Nat) (hw1 : 1 ≤ w) (hw : w ≤ 63)
     (hn : n < 2 ^ 64) (hm : P.length < 2 ^ 63)
     (hsorted : if multi then sortedLe P = true else sortedStrict P = true) (hbound : ∀ p ∈ P, p < n) :
     ∃ s, Sparse.ofValues w n multi P = ok s ∧
-      (∀ (m : Mode) (calls : List Sparse2.End), ∃ it', Sparse2.runCalls m s calls (SpOneIter.full s) =
-        ok ((Sparse2.runDeque calls ((List.range P.length).map fun i => (i, P[i]?.getD 0))).1, it')) ∧
-      (∀ (m : Mode) (calls : List Sparse2.End), ∃ it it', s.iter m = ok it ∧
-        Sparse2.runSpCalls m s calls it = ok ((Sparse2.runDeque calls (bitsOfSet P n)).1, it')) ∧
-      (multi = false → ∀ m : Mode, ∃ z, s.zeroIter m = ok z ∧
-        Sparse2.drainZ m s (n - P.length + 1) z =
-          ok ((List.range (n - P.length)).map fun i => (i, (selectZeroSet P n i).getD 0))) := by
+      (∀ (m : Mode) (calls : List ICall),
+        Sp.oneRun m s (SpOneIter.full s) calls = ok (dequeRunM (pairs P) calls)) ∧
+      (∀ (m : Mode) (calls : List ICall), ∃ it, s.iter m = ok it ∧
+        Sp.bitRun m s it calls = ok (dequeRunM (bitsOfSet P n) calls)) ∧
+      (∀ (m : Mode) (r : Nat) (calls : List ICall), ∃ it, s.selectIter m r = ok it ∧
+        Sp.oneRun m s it calls = ok (dequeRunM ((pairs P).drop r) calls)) ∧
+      (multi = false → ∀ (m : Mode) (calls : List FCall), ∃ z, s.zeroIter m = ok z ∧
+        Sp.zeroRun m s z calls = ok (dequeRunM
+          ((List.range (n - P.length)).map fun i => (i, (selectZeroSet P n i).getD 0))
+          (calls.map FCall.toICall))) := by
   obtain ⟨s, h1, hs, _⟩ := ofValues_queries w n multi P hw1 hw hn hm hsorted hbound
-  refine ⟨s, h1, fun m calls => sparse_one_iter_any_interleaving_partial s n w P hs m calls,
-    fun m calls => sparse_iter_any_interleaving_partial s n w P hs m calls, ?_⟩
-  intro hmulti m
+  refine ⟨s, h1, fun m calls => sparse_one_iter_any_interleaving s n w P hs m calls,
+    fun m calls => sparse_iter_any_interleaving s n w P hs m calls,
+    fun m r calls => sparse_select_iter_continues s n w P hs m r calls, ?_⟩
+  intro hmulti m calls
   subst hmulti
-  exact sparse_zero_iter_partial s n w P hs (by simpa using hsorted) m
+  exact sparse_zero_iter_any_history s n w P hs (by simpa using hsorted) m calls
+
+/-! ### run-length vector iterators (all forward-only in the Rust)
+
+`RLQ.Good v (maximalRuns B)`: `v` is a well-formed run-length vector whose runs are the maximal runs of the bit
+sequence `B` — what `From<RLBuilder>` produces (`rl_built_iterators`). -/
+
+/-- **all six iterators of a well-formed run-length vector**: every forward call history on `run_iter()` (`next` /
+`nth k`), `iter()`, `one_iter()`, `zero_iter()`, `select_iter(r)`, `select_zero_iter(r)` (`next` / `nth k` / `len`;
+EVERY `r`) answers as the reference queue over the maximal runs `(start, len)` / the bits / the
+`(rank, position)` pairs of the set resp. unset bits (from rank `r` on) — no fault, both modes -/
+theorem rl_iterators_any_history (m : Mode) (v : RL) (B : List Bool) (hg : RLQ.Good v (maximalRuns B))
+    (e1 : v.len = B.length) (e2 : v.ones = B.count true) (e3 : v.countZeros = B.count false) :
+    (∀ cs : List NCall, ∃ it, v.runIter = ok it ∧
+      RLI.runRun m v it cs = ok (dequeRunM (maximalRuns B) (cs.map NCall.toICall))) ∧
+    (∀ cs : List FCall, ∃ st, v.iter = ok st ∧
+      RLI.bitRun m v st cs = ok (dequeRunM B (cs.map FCall.toICall))) ∧
+    (∀ cs : List FCall, ∃ st, v.oneIter = ok st ∧
+      RLI.oneRun m v st cs = ok (dequeRunM (pairs (onesPos B)) (cs.map FCall.toICall))) ∧
+    (∀ cs : List FCall, ∃ st, v.zeroIter m = ok st ∧
+      RLI.zeroRun m v st cs = ok (dequeRunM (pairs (zerosPos B)) (cs.map FCall.toICall))) ∧
+    (∀ (r : Nat) (cs : List FCall), ∃ st, v.selectIter m r = ok st ∧
+      RLI.oneRun m v st cs = ok (dequeRunM ((pairs (onesPos B)).drop r) (cs.map FCall.toICall))) ∧
+    (∀ (r : Nat) (cs : List FCall), ∃ st, v.selectZeroIter m r = ok st ∧
+      RLI.zeroRun m v st cs = ok (dequeRunM ((pairs (zerosPos B)).drop r) (cs.map FCall.toICall))) :=
+  RLI.good_iterators m B hg e1 e2 e3
+
+/-- the same for EVERY vector built by a list of accepted builder calls (`try_set` / `set_len` / single bits;
+`B` = the bit sequence the calls describe); the success of the conversion and the block-count bound are hypotheses -/
+theorem rl_built_iterators (m : Mode) (calls : List RL.BCall) (hc : ∀ c ∈ calls, RL.callArgsOk c)
+    (b : RLBuilder) (hb : RL.runBCalls m calls {} = ok b) (v : RL) (hv : RL.ofBuilder m b = ok v)
+    (hsz : v.blocks + 8 < U64) :
+    let B := calls.foldl RL.specCall []
+    (∀ cs : List NCall, ∃ it, v.runIter = ok it ∧
+      RLI.runRun m v it cs = ok (dequeRunM (maximalRuns B) (cs.map NCall.toICall))) ∧
+    (∀ cs : List FCall, ∃ st, v.iter = ok st ∧
+      RLI.bitRun m v st cs = ok (dequeRunM B (cs.map FCall.toICall))) ∧
+    (∀ cs : List FCall, ∃ st, v.oneIter = ok st ∧
+      RLI.oneRun m v st cs = ok (dequeRunM (pairs (onesPos B)) (cs.map FCall.toICall))) ∧
+    (∀ cs : List FCall, ∃ st, v.zeroIter m = ok st ∧
+      RLI.zeroRun m v st cs = ok (dequeRunM (pairs (zerosPos B)) (cs.map FCall.toICall))) ∧
+    (∀ (r : Nat) (cs : List FCall), ∃ st, v.selectIter m r = ok st ∧
+      RLI.oneRun m v st cs = ok (dequeRunM ((pairs (onesPos B)).drop r) (cs.map FCall.toICall))) ∧
+    (∀ (r : Nat) (cs : List FCall), ∃ st, v.selectZeroIter m r = ok st ∧
+      RLI.zeroRun m v st cs = ok (dequeRunM ((pairs (zerosPos B)).drop r) (cs.map FCall.toICall))) :=
+  RLI.build_iterators m calls hc b hb v hv hsz
+
+/-- the transcribed `len()` of the three exact-size run-length iterators is the model's `remaining` on every
+state the simulations pass through -/
+theorem rl_len_is_remaining (m : Mode) (v : RL) :
+    (∀ it d, RLI.OneRel m v it d → RLI.oneLen m v it = ok (RLOneIter.remaining v it)) ∧
+    (∀ it d, RLI.BitRel m v it d → RLI.bitLen m v it = ok (RLIter.remaining v it)) ∧
+    (∀ z d, RLI.ZeroRel m v z d → RLI.zeroLen m v z = ok (RLZeroIter.remaining v z)) :=
+  ⟨fun _ _ h => RLI.oneLen_eq_remaining m h, fun _ _ h => RLI.bitLen_eq_remaining m h,
+    fun _ _ h => RLI.zeroLen_eq_remaining m h⟩
+
+/-- `FusedIterator` for the run iterator, on ANY state (no well-formedness needed): the state left by a `None`
+answers `None` again and does not move -/
+theorem rl_run_iter_fused (m : Mode) (v : RL) (it e : RunIter) (h : RunIter.nextQ m v it = ok (none, e)) :
+    RunIter.nextQ m v e = ok (none, e) :=
+  (RLI.run_fused m v it e h).1
+
+/-! ### wavelet matrix iterators
+
+`WMI.occ V x`: the ascending positions of the occurrences of `x` in `V`. -/
+
+/-- **`value_iter(x)` / `select_iter(r, x)`** on `WaveletMatrix::from(V)` (forward-only, no `len` in the Rust), EVERY
+starting rank `r`, value `x` and call history over `next` / `nth k`: the `(rank, index)` pairs of the occurrences
+of `x` from rank `r` on -/
+theorem wm_value_iter_any_history (V : List Nat) (hV : ∀ v, v ∈ V → v < 2 ^ 64) (hlen : V.length < 2 ^ 63)
+    (m : Mode) (x r : Nat) (calls : List NCall) :
+    WMI.valueRun m (WM.ofValues V) x r calls =
+      ok (dequeRunM ((pairs (WMI.occ V x)).drop r) (calls.map NCall.toICall)) :=
+  WMI.valueRun_from (WM.ofValues_ok_full V hV hlen) m x r calls
+
+/-- the positions listed by `WMI.occ` are exactly the occurrences, in order: the `r`-th one is where `V` holds `x`
+with `r` earlier occurrences -/
+theorem wm_occ_spec (V : List Nat) (x r i : Nat) :
+    (WMI.occ V x)[r]? = some i ↔ V[i]? = some x ∧ (V.take i).count x = r := by
+  rw [← WMI.selectVal_eq_occ]; exact selectVal_eq_some V x r i
+
+/-- **default `predecessor(i, x)` / `successor(i, x)`** of the wavelet matrix return a `ValueIter` at the rank of
+the nearest occurrence; it continues with consecutive ranks to the end (EVERY `i`, `x`) -/
+theorem wm_pred_succ_continue (V : List Nat) (hV : ∀ v, v ∈ V → v < 2 ^ 64) (hlen : V.length < 2 ^ 63)
+    (m : Mode) (i x : Nat) (calls : List NCall) :
+    (∃ r, (WM.ofValues V).predecessor m i x = ok r ∧
+      r = (if (V.take (i + 1)).count x > 0 then (V.take (i + 1)).count x - 1 else V.length) ∧
+      WMI.valueRun m (WM.ofValues V) x r calls =
+        ok (dequeRunM ((pairs (WMI.occ V x)).drop r) (calls.map NCall.toICall))) ∧
+    (∃ r, (WM.ofValues V).successor m i x = ok r ∧ r = (V.take i).count x ∧
+      WMI.valueRun m (WM.ofValues V) x r calls =
+        ok (dequeRunM ((pairs (WMI.occ V x)).drop r) (calls.map NCall.toICall))) := by
+  have hw := WM.ofValues_ok_full V hV hlen
+  exact ⟨⟨_, predecessor_ok hw m i x, rfl, WMI.valueRun_from hw m x _ calls⟩,
+    ⟨_, successor_ok hw m i x, rfl, WMI.valueRun_from hw m x _ calls⟩⟩
+
+/-- **`into_iter()`** of the wavelet matrix (forward-only, exact size), every call history over `next` / `nth k` /
+`len`: the items -/
+theorem wm_into_iter_any_history (V : List Nat) (hV : ∀ v, v ∈ V → v < 2 ^ 64) (hlen : V.length < 2 ^ 63)
+    (m : Mode) (calls : List FCall) :
+    WMI.intoRun m (WM.ofValues V) 0 calls = ok (dequeRunM V (calls.map FCall.toICall)) :=
+  WMI.intoRun_full (WM.ofValues_ok_full V hV hlen) m calls
+
+/-- **`iter()`** of the wavelet matrix (`AccessIter` over the fallible `get`), two-ended, every call history over
+the full alphabet: the items, no fault -/
+theorem wm_iter_any_interleaving (V : List Nat) (hV : ∀ v, v ∈ V → v < 2 ^ 64) (hlen : V.length < 2 ^ 63)
+    (m : Mode) (calls : List ICall) :
+    cursorRunM ((WM.ofValues V).get m) ⟨0, (WM.ofValues V).len⟩ calls = ok (dequeRunM V calls) :=
+  wm_iter_run (WM.ofValues_ok_full V hV hlen) m calls
+
+/-! ### the default `nth` / `nth_back`, spelled out -/
+
+/-- `nth(0)` is `next()`; `nth(k+1)` is `next()` followed, unless that was `None`, by `nth(k)` -/
+theorem nth_default_unfold {σ α} (next : σ → Outcome (Option α × σ)) (it : σ) (k : Nat) :
+    nthDefault next 0 it = next it ∧
+    nthDefault next (k + 1) it = (do
+      let r ← next it
+      match r.1 with
+      | none => return (none, r.2)
+      | some _ => nthDefault next k r.2) :=
+  ⟨rfl, rfl⟩
 
 /-! ### non-vacuity -/
 
@@ -350,5 +548,7 @@ example : dequeRunM [10, 20, 30, 40] [.next, .nthBack 1, .len, .nth 5, .next] =
     [.item 10, .item 30, .len 1, .none, .none] := by decide
 example : (1 ≤ 2 ∧ 2 ≤ 63 ∧ 10 < 2 ^ 64 ∧ [1, 4, 7].length < 2 ^ 63 ∧ sortedStrict [1, 4, 7] = true ∧
     ∀ p ∈ [1, 4, 7], p < 10) := by decide
+example : dequeRunM [10, 20, 30, 40] ([FCall.next, .nth 1, .len, .nth 5].map FCall.toICall) =
+    [.item 10, .item 30, .len 1, .none] := by decide
 
 end Sds.C10
